@@ -275,6 +275,79 @@ def run(ctx):
                           'replay': rl.record('fuse_unfuse', {'x': x}, {'symmetry': sym, 'groups': groups})})
         if k < 2:
             ctx.sample({'symmetry': sym, 'groups': groups, 'x': describe(x)})
+    # ---- fermionic arrays, with and without pending (lazy) signs: both strategies agree, the lazy and the
+    #      synchronised copy fuse to the same array, and unfusing restores the (transposed) original exactly
+    fstats = {'cases': 0, 'pending_signs': 0, 'identity_perm_ket_leading': 0, 'odd_blocks': 0}
+    for k in range(n_cases // 2):
+        sym = ['Z2', 'U1', 'Z2Z2', 'U1U1'][k % 4]
+        nd = rng.randint(2, 4)
+        try:
+            x = gen.rand_array(rng, sr, sym, ndim=nd, cplx=rng.random() < 0.25, maxsize=2, fermionic=True, oddpos=rng.randint(1, 9),
+                               keep=rng.choice([1.0, 1.0, 0.7, 0.5]), lo=-2, hi=2)
+            x = gen.rand_lazy(rng, sr, x)
+            xs = x.phase_sync()
+        except Exception as e:
+            found.append({'op': 'fermionic setup', 'symmetry': sym, 'raised': '%s: %s' % (type(e).__name__, e)})
+            continue
+        if not x.blocks:
+            continue
+        if rng.random() < 0.5:
+            # contiguous increasing groups led by a non-dual axis: fuse itself generates no sign
+            a0 = rng.randint(0, nd - 2); a1 = rng.randint(a0 + 1, nd - 1)
+            groups = [list(range(a0, a1 + 1))]
+            if a0 >= 2 and rng.random() < 0.5:
+                groups = [list(range(0, a0))] + groups
+        else:
+            groups = rand_groups(rng, nd)
+        fstats['cases'] += 1
+        if x.phases:
+            fstats['pending_signs'] += 1
+        position = min(min(g) for g in groups)
+        grouped = {ax for ga in groups for ax in ga}
+        perm = [ax for ax in range(position) if ax not in grouped] + [a for ga in groups for a in ga] + \
+               [ax for ax in range(position, nd) if ax not in grouped]
+        if perm == list(range(nd)) and not any(x.indices[g[0]].dual for g in groups):
+            fstats['identity_perm_ket_leading'] += 1
+        rp = None
+        try:
+            ctx.count(2)
+            outs = {}
+            # (FermionicArray.fuse has no strategy argument: the strategy is picked from the block count)
+            for nm, inp in (('lazy', x), ('synced', xs)):
+                outs[('auto', nm)] = inp.fuse(*groups).phase_sync()
+            ref = outs[('auto', 'synced')]
+            errs = None
+            for key, y in outs.items():
+                if not same_blocks(y, ref):
+                    errs = {'error': 'fusing the %s copy with strategy %s differs from fusing the synchronised copy' % (key[1],)}
+            # unfuse back
+            z = outs[('auto', 'lazy')]
+            for g in reversed(range(len(groups))):
+                if len(groups[g]) > 1:
+                    z = z.unfuse(position + g)
+            z = z.phase_sync()
+            xt = xs.transpose(tuple(perm)).phase_sync()
+            if errs is None:
+                if z.ndim != xt.ndim or any(i.chargemap != j.chargemap or i.dual != j.dual for i, j in zip(z.indices, xt.indices)):
+                    errs = {'error': 'unfusing does not restore the index structure'}
+                else:
+                    for sct, b in xt.blocks.items():
+                        if sct not in z.blocks or not np.array_equal(np.asarray(z.blocks[sct]), np.asarray(b)):
+                            errs = {'error': 'original block %r not restored bit-for-bit' % (sct,)}
+                            break
+                    else:
+                        for sct, b in z.blocks.items():
+                            if sct not in xt.blocks and np.any(np.asarray(b) != 0):
+                                errs = {'error': 'extra block %r after unfusing is not zero' % (sct,)}
+            if errs:
+                found.append({'op': 'fermionic fuse+unfuse', 'symmetry': sym, 'x': describe(x), 'pending_signs': {str(kk): v for kk, v in x.phases.items()},
+                              'groups': groups, **errs})
+        except Exception as e:
+            found.append({'op': 'fermionic fuse+unfuse', 'symmetry': sym, 'x': describe(x), 'groups': groups,
+                          'raised': '%s: %s' % (type(e).__name__, e)})
+        if x.phases and any(len(g) > 1 for g in groups):
+            ctx.nontrivial(('fermi', sym, str(sorted(x.blocks)), str(sorted(x.phases)), str(groups)))
+    stats['fermionic'] = fstats
     bad_idx = common.run_cases(ctx, 'fuse', IMPORTS, '', exprs, shard=40)
     tie_broken = []
     import tie_prims
@@ -298,7 +371,8 @@ def run(ctx):
     ctx.coverage['rule'] = ('random abelian arrays (rank 2-4, five symmetries, random dualness/charge, any subset of valid sectors stored, real and '
                             'Gaussian-integer data, a quarter already fused once) x random disjoint axis groups in random order (single-axis, '
                             'permuted, non-adjacent) x strategies insert/concat x cache on/off; non-trivial = a multi-axis group on a sparse or '
-                            'already-fused array; distinct by (symmetry, stored sectors, groups)')
+                            'already-fused array; distinct by (symmetry, stored sectors, groups); plus fermionic arrays with pending signs '
+                            '(lazy vs synchronised copy fuse alike, unfuse restores the transposed original bit-for-bit)')
 
     # ---- BEGIN tie-helpers block (harness/tie_helpers.py): translated helpers vs the Python source
     import tie_helpers
